@@ -344,4 +344,37 @@ theorem handler_truncated_request (p : Proto) (sp : SpecialParsers)
   rw [handlerYields_msgs p sp ys msgs _ hvals]
   simp [handlerYields, hne]
 
+/-! ### requests that hold a single message (fix F18)
+
+  Before the fix a unary gRPC / gRPC-Web request (and a server-streaming request in any protocol)
+  was served from its first envelope alone: whatever followed — a second message, a torn prefix,
+  an envelope with undefined flags — was never looked at, and the peer got success. -/
+
+/-- **single_request_served_only_wellformed**: user code of a unary / server-streaming handler runs
+    only if `Receive` yields exactly one message and then the clean end of the request side —
+    for any protocol, parsers, reader configuration and request body. -/
+theorem single_request_served_only_wellformed (p : Proto) (sp : SpecialParsers) (cfg : ReaderCfg Bytes) (src : Src)
+    (v : Bytes) (h : singleRequest (handlerRecvStream p sp cfg src) = .inl v) :
+    handlerRecvStream p sp cfg src = ([v], .eof) := by
+  generalize handlerRecvStream p sp cfg src = r at h
+  obtain ⟨msgs, e⟩ := r
+  match msgs, e, h with
+  | [], .eof, h => simp [singleRequest] at h
+  | [], .fail _, h => simp [singleRequest] at h
+  | [w], .eof, h => simp [singleRequest] at h; rw [h]
+  | [_], .fail _, h => simp [singleRequest] at h
+  | _ :: _ :: _, _, h => simp [singleRequest] at h
+
+/-- a second message is answered `unimplemented`, whatever follows it -/
+theorem single_request_rejects_second_message (v w : Bytes) (rest : List Bytes) (e : HEnd) :
+    singleRequest (v :: w :: rest, e) = .inr codeUnimplemented := rfl
+
+/-- a failure after the one message (malformed framing, a failing body) is that failure, not success -/
+theorem single_request_reports_late_failure (v : Bytes) (c : Nat) :
+    singleRequest ([v], .fail c) = .inr c := rfl
+
+/-- **History, F18**: the pinned tree served all three -/
+theorem single_request_pinned_served_malformed (v w : Bytes) (c : Nat) :
+    singleRequestPinned ([v, w], .eof) = .inl v ∧ singleRequestPinned ([v], .fail c) = .inl v := ⟨rfl, rfl⟩
+
 end ConnectModel.C07
